@@ -613,28 +613,49 @@ class Analyzer(object):
         mb = self.mutborrows.get(local)
         if not mb:
             return []
-        out = set()
-        body = self.body
-        for bb, idx, s in mb:
-            if s.rv.place.proj and s.rv.place.proj[0] == "*":
-                continue  # reborrow through a reference held in `local`: not a mutation of local itself
-            tmp = s.place.local if s.place.is_local() else None
-            if tmp is None:
-                continue
-            tmps = {tmp}
-            # follow reborrows one or two levels within the same block
-            blk = body.blocks[bb]
-            for s2 in blk.stmts[idx + 1:]:
-                if s2.kind == "assign" and s2.rv.k in ("ref", "rawptr", "use", "copyderef", "cast"):
-                    src = s2.rv.place if s2.rv.place is not None else (s2.rv.ops[0].place if s2.rv.ops else None)
-                    if src is not None and src.local in tmps and s2.place.is_local():
-                        tmps.add(s2.place.local)
-            t = blk.term
-            if t.kind == "call":
-                for a in t.args:
+        key = ("mutcalls", local)
+        sites = self._memo.get(key)
+        if sites is None:
+            body = self.body
+            tmps = set()
+            for bb, idx, s in mb:
+                if s.rv.place.proj and s.rv.place.proj[0] == "*":
+                    continue  # reborrow through a reference held in `local`: not a mutation of local itself
+                if s.place.is_local():
+                    tmps.add(s.place.local)
+            # temporaries derived from those borrows (reborrows, moves, unsizing casts): fixpoint
+            for _ in range(4):
+                grew = False
+                for b in body.blocks:
+                    if b.cleanup:
+                        continue
+                    for s2 in b.stmts:
+                        if s2.kind != "assign" or not s2.place.is_local() or s2.place.local in tmps:
+                            continue
+                        if s2.rv.k in ("ref", "rawptr", "copyderef"):
+                            src = s2.rv.place
+                        elif s2.rv.k in ("use", "cast") and s2.rv.ops and s2.rv.ops[0].place is not None:
+                            src = s2.rv.ops[0].place
+                        else:
+                            continue
+                        if src.local in tmps and len(self.defs.get(s2.place.local, [])) == 1:
+                            tmps.add(s2.place.local)
+                            grew = True
+                if not grew:
+                    break
+            sites = []
+            for b in body.blocks:
+                if b.cleanup or b.term.kind != "call":
+                    continue
+                for a in b.term.args:
                     if a.place is not None and a.place.local in tmps:
-                        if self._precedes((bb, "term"), point):
-                            out.add(t.callee["def"] if t.callee else "<indirect>")
+                        sites.append((b.idx, b.term.callee["def"] if b.term.callee else "<indirect>"))
+                        break
+            self._memo[key] = sites
+        out = set()
+        for bb, name in sites:
+            if self._precedes((bb, "term"), point):
+                out.add(name)
         return out
 
     def _precedes(self, a, b):
